@@ -663,7 +663,15 @@ def spec_check(ctx, budget):
     # witnesses of repaired defects (status "fixed" in known_findings.d/C09.json) are replayed first:
     # they are never matched as known findings, so a regression is a VIOLATION whose replay is the old witness
     for w in _fixed_witnesses():
-        cases.append((U.unfrac_json(w["tree"]), [list(o) for o in w["ops"]]))
+        if "ops" in w:
+            # chain-style witness: runs as the first cases of the chain check below
+            cases.append((U.unfrac_json(w["tree"]), [list(o) for o in w["ops"]]))
+        else:
+            # route-style witness (tree pair / pruning / query-io): same code path as check_witness
+            out["evaluations"] += 1
+            f = _replay_input(w)
+            if f:
+                _fail(out, f["what"], f["input"], f["expected"], f["got"], f["sig"])
     if budget >= 1:
         step = 1 if budget >= 8 else max(1, 4 // budget)
         for t in small[::step]:
